@@ -17,6 +17,7 @@ from fvmon import gen
 from fvmon.observe import unbox
 
 SPEC = {
+    "anchors": ["fibertree.model.format:Format._checkFillSpec", "fibertree.model.format:Format._getFiberFootprint", "fibertree.model.format:Format.getRank", "fibertree.model.format:Format.getTensor", "fibertree.model.format:Format.getSubTree", "fibertree.model.format:Format.getFiber"],
     "rule": ("cases = (i) every depth-2 tree over a 2x2 grid whose rows are absent / stored-empty / stored with 3-state "
              "leaves (absent / explicit default / value), under all 4 format assignments and two width tables, and every "
              "3-state depth-1 fiber over 3 coordinates under both formats; (ii) for three fixed tensors every subset of "
